@@ -12,7 +12,10 @@ every put on one of their queues is recorded in order.  Compared with
 `Command.from_frame` succeeding or raising TypeError on an observed frame is an
 oracle of model and reference; it is probed from the real receiver itself."""
 import itertools
+import logging
 from common import Model, InfraError
+
+logging.disable(logging.CRITICAL)
 
 ID = "C19"
 MODULE = "DaliVerif.Props.C19"
